@@ -239,7 +239,10 @@ def ref_byte_class(c):
 COLORS = {0: "black", 1: "red", 2: "lime", 3: "yellow", 4: "blue", 5: "magenta", 6: "cyan", 7: "white"}
 CLASSES = [("char", [0x41]), ("space", [0x20]), ("fg", [0x01, 0x06]), ("bg-new", [0x1D]), ("bg-black", [0x1C]),
            ("italic-on", [0x80]), ("italic-off", [0x81]), ("underline-on", [0x82]), ("underline-off", [0x83]), ("newline", [0x8A]),
-           ("unused", [0x8F]), ("diacritic", [0xC2])]
+           ("unused", [0x8F]), ("diacritic", [0xC2]), ("diacritic-alone", [0xC2])]
+
+
+reference_dangling = [False]
 
 
 def ref_text_field(data, teletext):
@@ -275,9 +278,12 @@ def ref_text_field(data, teletext):
     elif c == 0x83:
       st[3] = False
     elif (0x21 <= c <= 0x7F) or (0xA0 <= c <= 0xFF):
-      if 0xC1 <= c <= 0xCF and i + 1 < len(data) and data[i + 1] != 0x8F:
+      if 0xC1 <= c <= 0xCF and i + 1 < len(data) and (0x41 <= data[i + 1] <= 0x7A):
         ch = unicodedata.normalize("NFC", chr(data[i + 1]) + {0xC2: "́"}[c])
         i += 1
+      elif 0xC1 <= c <= 0xCF:
+        reference_dangling[0] = True   # a non-spacing diacritic with no letter after it: undefined, only totality is asserted
+        ch = "?"
       else:
         ch = chr(c)
       if pending_nl and out:
@@ -321,7 +327,7 @@ class StlTextHarness(Harness):
                  "real 1024+128 byte files are assembled and read through stl.reader.to_model (binary layout not stubbed here)")
   outside = ("text fields longer than the bound", "CCT other than 00 in the text comparison (8859-x tables are CPython's)")
   required_witnesses = ("colour-applied", "newline", "stopped-at-unused-space", "diacritic")
-  bounds = {"quick": "text fields of <= 4 positions, each one of 12 byte classes (letter, space, 4 foreground colours, new/black "
+  bounds = {"quick": "text fields of <= 4 positions, each one of 13 byte classes (letter, space, 4 foreground colours, new/black "
                      "background, italics on/off, underline on/off, newline, unused space, acute+letter), teletext and open",
             "thorough": "<= 5 positions"}
   budget_s = {"quick": 280, "thorough": 1200}
@@ -368,7 +374,10 @@ class StlTextHarness(Harness):
     if "C09" not in ex.active:
       return
     ps = [e for e in doc.get_body().dfs_iterator() if isinstance(e, model.P)]
+    reference_dangling[0] = False
     want = ref_text_field(bytes(data), teletext)
+    if reference_dangling[0]:
+      return
     got = observed_text_field(ps[0]) if ps else []
     if any(x != "\n" and (x[1] != "white") for x in want):
       ex.witness("colour-applied")
